@@ -487,9 +487,9 @@ def plan(tier, seed):
 
 
 def variants_for(tier):
-    vs = [(0, True, False, False), (1, False, True, False), (2, True, False, True)]
+    vs = [(0, True, False, False), (1, False, True, False), (2, True, False, True), (0, False, True, True)]
     if tier != 'quick':
-        vs += [(0, False, True, True), (1, True, False, False)]
+        vs += [(1, True, False, False), (2, False, True, True)]
     return vs
 
 
